@@ -229,14 +229,8 @@ def classify(prop, job, r):
         # the textual report and what was parsed from it disagree: trust nothing
         info["status"] = "parse_mismatch"
         return info
-    for c in r["checks"]:
-        d, st = c["desc"], c["status"]
-        if "unwinding assertion" in d and st == "FAILURE":
-            info["status"] = "unwind_too_small"
-            return info
-        if "unwinding assertion" in d and st != "SUCCESS":
-            info["status"] = "undetermined"
-            return info
+    unwind_failed = any("unwinding assertion" in c["desc"] and c["status"] == "FAILURE" for c in r["checks"])
+    unwind_undet = any("unwinding assertion" in c["desc"] and c["status"] not in ("SUCCESS", "FAILURE") for c in r["checks"])
     for c in r["checks"]:
         d, st, name = c["desc"], c["status"], c["name"]
         if ".cover." in name:
@@ -259,7 +253,12 @@ def classify(prop, job, r):
         else:
             # UNDETERMINED etc.
             info["notes"].append("%s: %s" % (st, d))
-    if any(n.startswith("UNDETERMINED") for n in info["notes"]):
+    if info["failed_own"]:
+        # a failed oracle is definite (a counterexample exists within the bound) even if some loop bound was too small
+        info["status"] = "decided"
+    elif unwind_failed:
+        info["status"] = "unwind_too_small"
+    elif unwind_undet or any(n.startswith("UNDETERMINED") for n in info["notes"]):
         info["status"] = "undetermined"
     else:
         info["status"] = "decided"
